@@ -42,6 +42,8 @@ pub enum Op {
     Rmdir(u8),
     RmdirAll(u8),
     SyncAll(u8, Front),
+    /// sync_all through a handle that was opened read-only (the "re-open the path just to fsync it" idiom)
+    SyncAllRO(u8),
     SyncData(u8),
     /// 0..=2 = DIRS, 3 = "/"
     SyncDir(u8),
@@ -82,6 +84,7 @@ impl Op {
             Op::Rmdir(d) => format!("remove_dir {}", DIRS[d as usize]),
             Op::RmdirAll(d) => format!("remove_dir_all {}", DIRS[d as usize]),
             Op::SyncAll(f, fr) => format!("{:?} sync_all {}", fr, FILES[f as usize]),
+            Op::SyncAllRO(f) => format!("sync_all {} through a read-only handle", FILES[f as usize]),
             Op::SyncData(f) => format!("sync_data {}", FILES[f as usize]),
             Op::SyncDir(d) => format!("sync_dir {}", dir_name(d)),
             Op::Advance => "advance time".into(),
@@ -108,7 +111,7 @@ impl Op {
             Op::MkdirAll(_) => "mkdir_all",
             Op::Rmdir(_) => "rmdir",
             Op::RmdirAll(_) => "rmdir_all",
-            Op::SyncAll(..) => "sync_all",
+            Op::SyncAll(..) | Op::SyncAllRO(..) => "sync_all",
             Op::SyncData(_) => "sync_data",
             Op::SyncDir(_) => "sync_dir",
             Op::Advance => "advance",
@@ -120,7 +123,7 @@ impl Op {
         match *self {
             Op::Create(f) | Op::CreateNew(f) | Op::OpenTrunc(f) | Op::Append(f) | Op::SetLen(f, _) | Op::Cursor(f) | Op::AppendCursor(f)
             | Op::RemoveFile(f) | Op::SyncData(f) => vec![FILES[f as usize]],
-            Op::WriteAt(f, ..) | Op::WriteAtSynced(f, ..) | Op::ReadAt(f, ..) | Op::SyncAll(f, _) => vec![FILES[f as usize]],
+            Op::WriteAt(f, ..) | Op::WriteAtSynced(f, ..) | Op::ReadAt(f, ..) | Op::SyncAll(f, _) | Op::SyncAllRO(f) => vec![FILES[f as usize]],
             Op::RenameF(a, b) => vec![FILES[a as usize], FILES[b as usize]],
             Op::RenameD(a, b) => vec![DIRS[a as usize], DIRS[b as usize]],
             Op::Mkdir(d) | Op::MkdirAll(d) | Op::Rmdir(d) | Op::RmdirAll(d) => vec![DIRS[d as usize]],
@@ -304,6 +307,11 @@ pub fn exec_impl(op: Op) -> Res {
                 r(h.sync_all())?;
                 Res::Ok
             }
+            Op::SyncAllRO(f) => {
+                let h = r(sfs::File::open(FILES[f as usize]))?;
+                r(h.sync_all())?;
+                Res::Ok
+            }
             Op::SyncAll(f, Front::Tokio) => {
                 let h = r(block(tfs::OpenOptions::new().write(true).open(FILES[f as usize])))?;
                 r(block(h.sync_all()))?;
@@ -422,7 +430,7 @@ pub fn exec_model(m: &mut Model, op: Op) -> Result<Res, Errc> {
             m.rmdir_all(DIRS[d as usize])?;
             Res::Ok
         }
-        Op::SyncAll(f, _) | Op::SyncData(f) => {
+        Op::SyncAll(f, _) | Op::SyncData(f) | Op::SyncAllRO(f) => {
             m.sync_file(FILES[f as usize])?;
             Res::Ok
         }
@@ -467,7 +475,11 @@ pub fn observe_impl(skip: &dyn Fn(&str) -> bool) -> Vec<PathObs> {
                     for e in rd {
                         match e {
                             Ok(e) => {
-                                entries.insert(e.path().to_string_lossy().to_string());
+                                let name = e.path().to_string_lossy().to_string();
+                                if !entries.insert(name.clone()) {
+                                    // a listing is a set of names: a repeated name is an observable defect
+                                    entries.insert(format!("<duplicate entry {name}>"));
+                                }
                             }
                             Err(_) => {
                                 entries.insert("<entry error>".into());
